@@ -423,6 +423,14 @@ func queryParamsAndBatchIds(run *ev.Run, rng *rand.Rand) {
 				skeys = append(skeys, s)
 			}
 		}
+		if n%4 == 3 {
+			// long ids (seed C09m: a writer finalized once per key that hands out its buffer without copying it only
+			// reuses buffers beyond the first 128-byte chunk).  Chosen by position: no PRNG draw moves.
+			for i := range skeys {
+				skeys[i] += strings.Repeat("p", 140+30*(i%2))
+			}
+			run.Count("batch_id_long_key_cases", 1)
+		}
 		g := model.NewGen(ksSet.Schema, rng)
 		var ckeys []*kst.CK
 		cseen := map[string]bool{}
@@ -462,6 +470,14 @@ func queryParamsAndBatchIds(run *ev.Run, rng *rand.Rand) {
 				if ids == nil || !ascending(ids) {
 					run.Violation("v2/batch-ids/"+kind+"/"+which+"-not-ascending", map[string]any{"query": trunc(q), "ids": ids})
 				}
+				// conservation: k pairwise different keys give k pairwise different ids
+				dup := len(ids) != k
+				for i := 1; i < len(ids); i++ {
+					dup = dup || ids[i] == ids[i-1]
+				}
+				if ids != nil && ascending(ids) && dup {
+					run.Violation("v2/batch-ids/"+kind+"/"+which+"-ids-lost-or-repeated", map[string]any{"query": trunc(q), "keys": k, "ids": len(ids)})
+				}
 			}
 			run.Distinct(fmt.Sprintf("ids|%s|%d", kind, k))
 		}
@@ -480,6 +496,21 @@ func queryParamsAndBatchIds(run *ev.Run, rng *rand.Rand) {
 			if err != nil {
 				return "", "", err
 			}
+			// conservation against one-key sets (where nothing can be shared between keys): same ids
+			var alone []string
+			for _, s := range skeys {
+				one := batchkeyset.NewBatchKeySet[string]()
+				_ = one.AddKey(s)
+				q, err := one.EncodeQueryParams()
+				if l := idList(q); err == nil && len(l) == 1 {
+					alone = append(alone, l[0])
+				}
+			}
+			sort.Strings(alone)
+			if got := idList(a); len(alone) == k && got != nil && strings.Join(got, "\x00") != strings.Join(alone, "\x00") {
+				run.Violation("v2/batch-ids/string/ids-differ-from-one-key-encodings", map[string]any{"query": trunc(a), "alone": trunc(strings.Join(alone, ","))})
+			}
+			run.Count("batch_id_conservation_checks", 1)
 			b, err := restlicodec.BuildQueryParams(func(w func(string) restlicodec.Writer) error {
 				w("zparam").WriteString("x")
 				w("aparam").WriteInt32(1)
